@@ -82,6 +82,10 @@ def c16(tier, seed):
          "cmd": ["drive", "evaluator", "{seed}", q(tier, 300, 3000), "{trace}"]},
         {"type": "i2s", "name": "evaluate_v with NaN items", "spec": "Trace_EvalV",
          "cmd": ["drive", "evalv", "{seed}", q(tier, 300, 3000), "{trace}"]},
+        {"type": "i2s", "name": "every public operation under catch_unwind", "spec": "Trace_Panic",
+         "cmd": ["drive", "nopanic", "{seed}", q(tier, 150, 3000), "{trace}"], "min_tally": [3000, 300, 0, 0]},
+        {"type": "i2s", "name": "whole-API sessions", "spec": "Trace_Library",
+         "cmd": ["drive", "session", "{seed}", q(tier, 150, 1500), "{trace}"]},
         {"type": "i2s", "name": "direct evaluation incl. NaN", "spec": "Trace_Select",
          "cmd": ["drive", "select", "{seed}", q(tier, 100, 1000), "{trace}"]},
     ]
